@@ -161,7 +161,7 @@ func verifySeal(
 ) error {
 	number := header.Height.RevisionHeight
 	// Resolve the authorization key and check against validators
-	signer, err := ecrecover(header, big.NewInt(int64(clientState.ChainId)))
+	signer, err := ecrecover(header, new(big.Int).SetUint64(clientState.ChainId))
 	if err != nil {
 		return err
 	}
